@@ -187,7 +187,7 @@ template<class Tg,class S,class GA,class GB> typename Tg::template G<S> hcompose
 template<class Tg,class R,class T> void assume_rot_below_pi(R& rec, const T& t){ typedef typename R::S S; S r=Tg::template rotsq<S>(t); if(!(Tg::DoF==Tg::P && Tg::H==Tg::P+1 && Tg::Rep==Tg::P)) rec.assume(r, 0, S(9.869604)); } // 9.869604 < pi^2
 // element-side hypotheses: rotation part not the identity (vector / imaginary part non-zero), rotation angle not exactly pi (w != 0)
 template<class Tg,class R,class X> void assume_elem_rot_positive(R& rec,const X& x){ typedef typename R::S S; if(!(Tg::DoF==Tg::P && Tg::H==Tg::P+1 && Tg::Rep==Tg::P)) rec.assume(S(0.0),0,Tg::template erotsq<S>(x)); }
-template<class Tg,class R,class X> void assume_not_half_turn(R& rec,const X& x){ typedef typename R::S S; if(!(Tg::DoF==Tg::P && Tg::H==Tg::P+1 && Tg::Rep==Tg::P)) rec.assume(Tg::template ew<S>(x),3,S(0.0)); }
+template<class Tg,class R,class X> void assume_not_half_turn(R& rec,const X& x){ typedef typename R::S S; if(!(Tg::DoF==Tg::P && Tg::H==Tg::P+1 && Tg::Rep==Tg::P) && Tg::H>=4) rec.assume(Tg::template ew<S>(x),3,S(0.0)); }   // quaternion groups only: w = 0 is the rotation by pi (the planar groups have a single-valued principal logarithm at the half turn)
 template<class Tg,class R,class T> void assume_rot_positive(R& rec, const T& t){ typedef typename R::S S; S r=Tg::template rotsq<S>(t); if(!(Tg::DoF==Tg::P && Tg::H==Tg::P+1 && Tg::Rep==Tg::P)) rec.assume(S(0.0), 0, r); }
 } // namespace gx
 #ifdef ZERO_ROT
